@@ -7,7 +7,7 @@ ID = 'C07'
 CHECK = {'title': 'Hotter never means slower',
  'level': 'exploration',
  'technique': 'exhaustive enumeration of monotone configurations x dense ascending sweeps of the input on the real code; every value must be '
-              '>= its predecessor',
+              '>= its predecessor; plus stateless exploration of all interleavings of two controllers inside one shared function curve (controlled scheduler, scheduling point at every member evaluation)',
  'rule': 'an ascending sweep checks every adjacent pair, hence every pair T1<=T2 of its grid. Curves: sensor sweep at 1 m-degree within +-50 '
          'm-degree of every breakpoint and 100 m-degree elsewhere, from 2 degrees below the lowest to 2 degrees above the highest breakpoint, over '
          'every linear min<max pair from {-20,0,1,40,41,80,120}, every non-decreasing step set over temperatures {-10,0,40,41,80} x speeds '
